@@ -37,6 +37,7 @@ SEPS = ["\n", "\r\n", " ", "\t", ";\n", "\n\n"]
 TAILS = ["none", "rand1k", "nul", "badutf8", "morepvl", "utf8text"]
 LOAD_ROUTES = ["load-str-path", "load-Path", "loadu-file-url", "load-text-stream", "load-binary-stream",
                "load-BytesIO", "load-StringIO", "loads-str", "loads-bytes"]
+STR_ROUTES = ("load-StringIO", "loads-str")
 PROMPT_LIMIT_S = {100000: 5.0, 1000000: 30.0}
 
 
@@ -740,7 +741,8 @@ def sections(ctx):
         s = Section("corpus-as-is", "bounded", bounded=True,
                     rule="every corpus file unmodified (incl. the ISIS cube with binary image data and the broken "
                          "labels): all routes give the outcome of pvl.load(str path) (equal module, or the same "
-                         "exception type)", bounds={"files": len(corpus_raw())})
+                         "exception type); for files that are not valid UTF-8 only the byte-fed routes (path, Path, "
+                         "file: URL, text stream opened with utf-8, binary stream, BytesIO, loads(bytes))", bounds={"files": len(corpus_raw())})
         t0 = time.time()
         fails = []
         import pvl
@@ -755,6 +757,9 @@ def sections(ctx):
             ref = outcome(lambda: pvl.load(p))
             ref_c = ref if ref[0] == "ok" else ref[:2]
             for route, fn in route_fns(p, data, text).items():
+                if not dec and route in STR_ROUTES:
+                    # no str "is" a file whose bytes are not UTF-8: only the byte-fed routes are comparable
+                    continue
                 got = outcome(fn)
                 s.case(sample={"file": rel, "route": route}, distinct_key=(rel, route))
                 got_c = got if got[0] == "ok" else got[:2]
@@ -913,6 +918,8 @@ def replay(data):
             try:
                 text = raw.decode("utf-8")
             except UnicodeDecodeError as e:
+                if data["route"] in STR_ROUTES:
+                    return None            # not comparable (see sections)
                 text = raw[:e.start].decode("utf-8") + raw[e.start:].decode("latin-1")
             ref = outcome(lambda: pvl.load(p))
             got = outcome(route_fns(p, raw, text)[data["route"]])
